@@ -40,6 +40,9 @@ def main():
         if not os.path.isdir(d) or not fnmatch.fnmatchcase(sid, a.only):
             continue
         meta = json.load(open(os.path.join(d, "meta.json")))
+        if meta.get("retired"):
+            out[sid] = dict(property=meta["property"], retired=meta["retired"])
+            continue
         wt = f"/tmp/seedrun_{sid}"
         sh(f"git -C {REPO} worktree remove --force {wt}")
         r = sh(f"git -C {REPO} worktree add --detach {wt} HEAD")
